@@ -68,6 +68,7 @@
 #include <fcppt/options/unit.hpp>
 
 #include <algorithm>
+#include <functional>
 #include <iosfwd>
 #include <map>
 #include <memory>
@@ -702,6 +703,31 @@ struct shape : shape_base
         fail("options::parse_help|no-help-text", name + " on [--help] did not return the help text");
         return;
       }
+      if (std::find(a.begin(), a.end(), "--help") != a.end())
+      {
+        // the switch AND something else. Documented: no help text then (checked above); and since
+        // nothing may be dropped silently, a record can only come back if "--help" was consumed as the
+        // value of an option. Reading: when some "--help" directly follows a token that is an option
+        // name of the parser nothing more is demanded; otherwise the vector must be rejected.
+        optnames on; // every option name anywhere in the definition, sub-commands included
+        std::function<void(dp const &)> const collect = [&](dp const &d) {
+          if (d->k == desc::OPTION)
+          {
+            on.insert({d->lng, false});
+            if (!d->sht.empty()) on.insert({d->sht, true});
+          }
+          for (auto const &ch : d->c) collect(ch);
+        };
+        collect(b.d);
+        bool may_be_value = false;
+        for (std::size_t i = 1; i < a.size(); ++i)
+          if (a[i] == "--help")
+            for (auto const &o : on)
+              if (a[i - 1] == (o.second ? "-" : "--") + o.first) may_be_value = true;
+        cls(may_be_value ? "help switch possibly an option value" : "help switch and something else");
+        if (!may_be_value && rs != "FAIL") fail("options::parse_help|switch-and-something-else|not-rejected", name + " on " + show_args(a) + ": " + rs + " although --help was given together with other arguments (it is neither the help request nor accounted for by the record)");
+        return;
+      }
     }
     if (rs != ms)
     {
@@ -770,6 +796,15 @@ inline std::string describe(shape_list const &shapes, Ints const &c)
     if (sh->id == c.at(0)) return "shape #" + std::to_string(sh->id) + " " + sh->name + (c.at(1) % 2 == 1 ? " (parse_help)" : "") + " on " + show_args(decode_args(c, 2));
   return "shape #" + std::to_string(c.at(0)) + " (not in this translation unit)";
 }
+// the help entry point: a quarter of the cases; of those a half is exactly [--help], a quarter has
+// "--help" inserted somewhere into the random vector (the switch AND something else), a quarter has no
+// "--help" at all
+inline void help_args(Ints const &c, args &a)
+{
+  u64 const m = static_cast<u64>(c[1]);
+  if (m % 8 == 0) a = args{"--help"};
+  else if (m % 16 == 4) a.insert(a.begin() + static_cast<long>((m / 16) % (a.size() + 1)), "--help");
+}
 // random longer vectors (and the help wrapper): ints[0] picks the shape, ints[1] the entry point
 inline void run_random_case(shape_list const &shapes, Ints const &c)
 {
@@ -777,7 +812,7 @@ inline void run_random_case(shape_list const &shapes, Ints const &c)
   auto const &sh = shapes[static_cast<u64>(c[0]) % shapes.size()];
   args a = decode_args(c, 2);
   bool const help = c[1] % 4 == 0;
-  if (help && c[1] % 8 == 0) a = args{"--help"};
+  if (help) help_args(c, a);
   sh->check(a, help);
 }
 inline std::string describe_random(shape_list const &shapes, Ints const &c)
@@ -786,7 +821,7 @@ inline std::string describe_random(shape_list const &shapes, Ints const &c)
   auto const &sh = shapes[static_cast<u64>(c[0]) % shapes.size()];
   args a = decode_args(c, 2);
   bool const help = c[1] % 4 == 0;
-  if (help && c[1] % 8 == 0) a = args{"--help"};
+  if (help) help_args(c, a);
   return "shape #" + std::to_string(sh->id) + " " + sh->name + (help ? " (parse_help)" : "") + " on " + show_args(a);
 }
 
